@@ -438,7 +438,10 @@ class IterNode(tp.Generic[FrameOrSeries]):
             # NOTE: axis 0 iterates columns (labelled by columns), but windows with axis 0 move along, and are labelled by, the index
             axis_columns = 1 if isinstance(self, IterNodeWindow) else 0
             if hasattr(self._container, '_columns') and kwargs['axis'] == axis_columns: # Frame or Quilt
-                index_constructor = self._container._columns.from_labels
+                columns = self._container._columns
+                # the columns of a FrameGO are grow-only: a Series requires the static class
+                columns_cls = columns.__class__ if columns.STATIC else columns._IMMUTABLE_CONSTRUCTOR
+                index_constructor = columns_cls.from_labels
             else:
                 index_constructor = self._container._index.from_labels
             # always return a Series
